@@ -20,7 +20,12 @@
                                      discharged by `decide +kernel`;
     * `C19_layout_faithful`          the tree of segment strings is read back exactly (no assumption about
                                      closure nodes);
-    * `C19_render_injective_partial` trees with different segment strings have different renderings;
+    * `C19_render_injective`         the rendering determines the tree of NODES (sentence, world, designation
+                                     marker, tick; access / ellipsis / flag nodes) and hence the branches — both
+                                     notations, every option set; side conditions on marks × table decidable
+                                     (`NodeOK`), discharged for the regenerated data in `textNodes_ok`;
+    * `C19_render_injective_generated` the same for the regenerated marks and the six `text` string tables;
+    * `C19_render_injective_partial` (kept) trees with different segment strings have different renderings;
     * `C19_render_deterministic`     the rendering is a function of (marks, table, notation+options, tree)
                                      — by construction: `renderText` is a total Lean function of exactly
                                      these arguments; nothing else (no clock, no ids, no hash order) enters;
@@ -39,8 +44,12 @@
     * a closure flag node is the bare node appended by `Branch.close()`: it is the last node of a leaf
       structure, exactly on the leaves whose `closed` attribute is true.
   The harness checks `WF` on every real tree it sends (a failure is reported).
+  `C19_render_injective` additionally assumes every node `RNode.regular` (Ptx/Tab/Render.lean: the node
+  classes of proof/common.py — paired access worlds, constructible sentence, quit flag on the bare flag node
+  only, no empty attribute record); the driver evaluates it on every real tree as well.
 -/
 import Ptx.Proofs.TabRender
+import Ptx.Proofs.TabRenderInj
 import Ptx.Gen.RenderMarks
 namespace Ptx.Props.C19
 open Ptx Ptx.Sym Ptx.Render
@@ -174,12 +183,20 @@ example : let t : RTree := .mk 0 [.closureNode, .sent (.atom 0 0)] [.mk 1 [.quit
 
 /-! ## 4. injectivity, determinism -/
 
-/- FULL STATEMENT (not proved): on well-formed trees `renderText m tb nt` is injective up to the data the
-   writer does not read (the numeric value of non-zero depths):
+/- FULL STATEMENT: on well-formed trees `renderText m tb nt` is injective up to the data the writer does not
+   read (the numeric value of non-zero depths, the `closed` attribute — which `WF` ties to the closure node on
+   leaves):
        renderText m tb nt t₁ = renderText m tb nt t₂ → t₁.shape = t₂.shape ∧ per structure nodes₁ = nodes₂.
-   That needs injectivity of the node macro (`nodeStr`), i.e. of the sentence writers (C12 proves it for
-   the polish writer; for the standard tables `E` is a prefix of `E!`) and unambiguity of the marks against
-   sentence text.  Proved: injectivity up to the segment strings. -/
+   PROVED below as `C19_render_injective` (conclusion `t₁.nodeTree = t₂.nodeTree`, and `t₁.branches = t₂.branches`)
+   for BOTH notations and every option set of the standard writer, for trees whose nodes are `RNode.regular`:
+   every node class of proof/common.py (sentence nodes with / without world and designation, ticked or not;
+   access nodes; the ellipsis node; closure and quit flag nodes; also sentence-less world / designation
+   nodes), with a constructible sentence.  Outside `regular` the template itself is not injective: the empty
+   attribute record and the quit-flag node are both written as the bare separator (example below), and an
+   access world without its partner is not written at all.
+   It rests on injectivity of the sentence writers followed by marks (C12: `Write.render_inj_tail`, for the
+   standard tables with the `E` / `E!` lookahead) and on the marks being mutually unambiguous (`NodeOK`).
+   `C19_render_injective_partial` (equal segment strings, no assumption on the nodes) is kept. -/
 
 /-- **Different segment strings, different renderings** (equivalently: the rendering determines the shape
     of the tree and the string of every structure). -/
@@ -200,6 +217,75 @@ example : let a : RNode := .sent (.atom 0 0)
     RTree.depthsOK true t₁ = true ∧ RTree.depthsOK true t₂ = true ∧
     renderText Gen.RenderMarks.textMarks Gen.Symbols.str_text_polish_text .polish t₁ ≠
       renderText Gen.RenderMarks.textMarks Gen.Symbols.str_text_polish_text .polish t₂ := by decide +kernel
+
+/-- the regenerated marks against every regenerated `text` string table, in the notation of the table: the
+    node marks are pairwise prefix-incomparable and start with a non-digit; the marks that can follow a
+    sentence are prefix-incomparable with every non-blank symbol, the subscript opener and `blank ++ infix
+    symbol`; the table is decodable (standard: with the `E` / `E!` lookahead) -/
+theorem textNodes_ok :
+    ∀ tb ∈ Gen.RenderMarks.textTables,
+      NodeOK Gen.RenderMarks.textMarks tb Gen.Symbols.maxi (tb.notn == "standard") = true := by decide +kernel
+
+-- the condition discriminates: a tick mark ` &` could be the conjunction of the standard ascii writer, a world
+-- mark `a` a constant of the polish one
+example : NodeOK { refMarks with tick := [32, 38] } Gen.Symbols.str_text_standard_ascii Gen.Symbols.maxi true = false ∧
+    NodeOK { refMarks with world := [109] } Gen.Symbols.str_text_polish_ascii Gen.Symbols.maxi false = false ∧
+    NodeOK refMarks Gen.Symbols.str_text_standard_ascii Gen.Symbols.maxi true = true := by decide +kernel
+
+/-- **The rendering determines the nodes.**  For trees of finished tableaux (`WF`) whose nodes are regular
+    (`RNode.regular`: the node classes of proof/common.py with constructible sentences), any legend / string
+    table / notation with the decidable readability conditions `Decodable`, `TableOK`, `NodeOK`: equal
+    plain-text renderings come from trees with the same shape and, structure by structure, the same node list
+    — every node with its sentence, world, designation marker and tick, access nodes with both worlds,
+    ellipsis and flag nodes — hence with the same branches (nodes in branch order, `closed` of the leaf). -/
+theorem C19_render_injective (m : Marks) (tb : StringTable) (mx : MaxIdx) (nt : Notn) (t₁ t₂ : RTree)
+    (hm : m.Decodable = true) (htb : TableOK m tb = true) (hn : NodeOK m tb mx nt.isStd = true)
+    (hwf₁ : t₁.WF = true) (hwf₂ : t₂.WF = true)
+    (hr₁ : t₁.allNodes (RNode.regular mx) = true) (hr₂ : t₂.allNodes (RNode.regular mx) = true)
+    (h : renderText m tb nt t₁ = renderText m tb nt t₂) :
+    t₁.nodeTree = t₂.nodeTree ∧ t₁.branches = t₂.branches := by
+  have hd := Marks.dec_of_decodable hm
+  simp only [RTree.WF, Bool.and_eq_true] at hwf₁ hwf₂
+  have hseg := C19_render_injective_partial m tb nt t₁ t₂ hm htb hwf₁.1 hwf₂.1 h
+  have e₁ := toN_segTree (nt := nt) hd htb t₁ true hwf₁.1 hwf₁.2
+  have e₂ := toN_segTree (nt := nt) hd htb t₂ true hwf₂.1 hwf₂.2
+  rw [hseg, e₂] at e₁
+  have hnt := nodeTree_of_specN hn hd.closure_ne nt rfl t₁ t₂ hwf₁.2 hwf₂.2 hr₁ hr₂ e₁.symm
+  exact ⟨hnt, branches_of_nodeTree t₁ t₂ hwf₁.2 hwf₂.2 hnt⟩
+
+-- the hypotheses are satisfiable (the example tree has every node kind but the ellipsis), and regularity is
+-- needed: the empty record and the quit-flag node are written alike
+example : exTree.WF = true ∧ exTree.allNodes (RNode.regular Gen.Symbols.maxi) = true ∧
+    (RNode.ellipsisNode.regular Gen.Symbols.maxi && RNode.quitNode.regular Gen.Symbols.maxi &&
+      (RNode.sent (.pred Pred.existence [.const 0 0]) (some true) (some 3) true).regular Gen.Symbols.maxi) = true ∧
+    RNode.regular Gen.Symbols.maxi {} = false ∧
+    nodeStr refMarks refLw {} = nodeStr refMarks refLw .quitNode := by decide +kernel
+
+/-- **… for the code as it is**: the marks probed from the real template, any of the real `text` string tables
+    with the notation it belongs to (`TabWriter('text', notation, dialect=…)` looks the table up by notation),
+    every option set of the standard writer. -/
+theorem C19_render_injective_generated (tb : StringTable) (htb : tb ∈ Gen.RenderMarks.textTables) (nt : Notn)
+    (hnt : nt.isStd = (tb.notn == "standard")) (t₁ t₂ : RTree)
+    (hwf₁ : t₁.WF = true) (hwf₂ : t₂.WF = true)
+    (hr₁ : t₁.allNodes (RNode.regular Gen.Symbols.maxi) = true)
+    (hr₂ : t₂.allNodes (RNode.regular Gen.Symbols.maxi) = true)
+    (h : renderText Gen.RenderMarks.textMarks tb nt t₁ = renderText Gen.RenderMarks.textMarks tb nt t₂) :
+    t₁.nodeTree = t₂.nodeTree ∧ t₁.branches = t₂.branches :=
+  C19_render_injective _ tb Gen.Symbols.maxi nt t₁ t₂ textMarks_decodable
+    (List.all_eq_true.mp textTables_ok tb htb) (by rw [hnt]; exact textNodes_ok tb htb) hwf₁ hwf₂ hr₁ hr₂ h
+
+-- both notations occur among the regenerated tables; two trees that differ only in a designation marker, and two
+-- that differ in `E` / `E!a` (standard), are told apart
+example : (Gen.RenderMarks.textTables.map (fun tb => tb.notn == "standard")).contains true = true ∧
+    (Gen.RenderMarks.textTables.map (fun tb => tb.notn == "standard")).contains false = true ∧
+    renderText Gen.RenderMarks.textMarks Gen.Symbols.str_text_standard_text (.standard {})
+        (.mk 0 [.sent (.atom 4 0) (some true)] [] false) ≠
+      renderText Gen.RenderMarks.textMarks Gen.Symbols.str_text_standard_text (.standard {})
+        (.mk 0 [.sent (.atom 4 0) (some false)] [] false) ∧
+    renderText Gen.RenderMarks.textMarks Gen.Symbols.str_text_standard_text (.standard {})
+        (.mk 0 [.sent (.atom 4 0)] [] false) ≠
+      renderText Gen.RenderMarks.textMarks Gen.Symbols.str_text_standard_text (.standard {})
+        (.mk 0 [.sent (.pred Pred.existence [.const 0 0])] [] false) := by decide +kernel
 
 /-- **Determinism (by construction).**  `renderText` is a Lean function: the text depends on nothing but
     the legend, the string table, the notation with its options, and the tree.  In particular the `closed`
